@@ -113,7 +113,7 @@ def run(ctx):
 
     # V: recorded executions of the real code validated by the trace specification
     tp = os.path.join(ctx.scratch, "trace.ndjson")
-    s, _ = ctx.drive(drv, ["-mode", "record", "-trace", tp, "-n", ctx.pick(32, 400), "-steps", ctx.pick(100, 250),
+    s, _ = ctx.drive(drv, ["-mode", "record", "-trace", tp, "-n", ctx.pick(32, 240), "-steps", ctx.pick(100, 200),
                            "-na", 3, "-ns", 2, "-ripemd", 3], name="c13-record", timeout=ctx.pick(1800, 7200))
     ok, consumed, total, r = ctx.validate("state/StateDBTrace", tp, ntraces=s["traces"], timeout=ctx.pick(1800, 7200))
     if not ok:
